@@ -367,7 +367,8 @@ class Gen:
             val = {"nu": lambda: r.normal((s.R, s.D)), "ln_beta": lambda: r.normal((s.R,)),
                    "Lambda": lambda: r.spd(s.R, s.D, self.cfg["cond_max"])}[field]()
         elif s.cls == "OneRankFactor":
-            field = r.choice(["v", "g", "nu", "ln_beta"])
+            # in the representation-twin profile the general-class twin has no v / g: only shared fields
+            field = r.choice(["nu", "ln_beta"] if self.cfg["profile"] == "repr" else ["v", "g", "nu", "ln_beta"])
             val = {"v": lambda: r.normal((s.R, s.D)), "g": lambda: r.uniform(0.1, 2.5, (s.R,)),
                    "nu": lambda: r.normal((s.R, s.D)), "ln_beta": lambda: r.normal((s.R,))}[field]()
         elif s.cls == "LinearFactor":
